@@ -157,6 +157,17 @@ theorem unquoteRun_eq (s : Bytes) : ∀ k, unquoteRun s k =
 theorem unquote_eq_ref (s : Bytes) : unquoteRun s 0 = unquoteRef s := by
   rw [unquoteRun_eq]; simp
 
+/-- every byte string written as a quoted field value is read back unchanged. -/
+theorem parseStr_quoteStr (s : Bytes) : parseStr (quoteStr s) = some s := by
+  show parseStr (bQuote :: (quoteBody s ++ [bQuote])) = some s
+  unfold parseStr
+  have hlen : ¬ ((bQuote :: (quoteBody s ++ [bQuote])).length < 2) := by simp
+  have hlast : (bQuote :: (quoteBody s ++ [bQuote])).getLast? = some bQuote := by
+    rw [← List.cons_append, List.getLast?_concat]
+  have h0 := unquoteRun_quoteBody s 0
+  simp only [Nat.mul_zero, List.replicate_zero, List.nil_append] at h0
+  simp only [if_true, hlast, hlen, false_or, ne_eq, not_true_eq_false, if_false, List.dropLast_concat, h0]
+
 /-! ### the number automaton against the grammar -/
 
 /-- `toCharType` as regenerated, against its specification, for all 256 bytes. -/
